@@ -215,11 +215,21 @@ for mn in sorted(MODS):
             except:
                 bad += 1
         # many values no call has seen before: whatever the function remembers (a table, a cache) grows while other contexts do the same
+        takes_str = False
         for j in range(400):
             try:
                 f("fresh3-" + fn + "-" + str(n) + "-" + str(j))
+                takes_str = True
             except:
                 pass
+        # a function that accepts strings is then called many thousand times with new and recurring ones, back to back
+        if takes_str:
+            for j in range(20000):
+                try:
+                    f("hot-" + fn + str(n) + "-" + str(j))
+                    f("common" + str(j % 64))
+                except:
+                    pass
     print(mn, ok, bad)
 '''
     return src
